@@ -49,4 +49,13 @@ var props = map[string]*Prop{
 			{Name: "env-loader", Pkg: "pkg/diff", Test: "TestVerifC15Loader", Shards: sh(2, 4)},
 		},
 	},
+	"C20": {
+		Level: "exploration",
+		Rule: "every path spelling of <=3 (quick) / <=4 (thorough) segments over an 18-name alphabet (., .., real dirs, a real database, a file, symlinks to /etc, /usr/lib and to a sibling, names of protected dirs and look-alikes such as etcetera/usrlocal/bootstrap) from 6 bases (absolute and relative, cwd in the fixture, in /etc, in /), opened read-only on the real FS and read-write on an in-memory FS; oracle = independent kernel-semantics resolver + separator-aware containment in the protected list. Non-trivial = spelling that is inside a protected dir or goes through a symlink or '..'.",
+		Assumptions: []string{"the protected list is /etc,/root,/usr,/bin,/sbin,/boot (the list the code documents)", "'..' after a not-yet-existing component has no agreed meaning and is skipped (counted)"},
+		Bounds:      map[string]string{"quick": "<=3 segments", "thorough": "<=4 segments"},
+		Units: []Unit{
+			{Name: "paths", Pkg: "pkg/storage/pebbledb", Test: "TestVerifC20", Shards: sh(8, 16), TimeoutS: sh(600, 3000)},
+		},
+	},
 }
